@@ -15,6 +15,7 @@ package codec
 
 import (
 	"bytes"
+	"compress/flate"
 	"compress/zlib"
 	"errors"
 	"fmt"
@@ -22,6 +23,7 @@ import (
 	"runtime/debug"
 	"runtime/metrics"
 	"strings"
+	"sync"
 	"testing"
 	"time"
 
@@ -60,7 +62,9 @@ type c02Case struct {
 	ServerBound bool       `json:"serverbound"`
 	Threshold   int        `json:"threshold"` // <0: compression off
 	Frames      []c02Frame `json:"frames"`
-	Truncate    int        `json:"truncate"` // >=0: cut the stream at this offset (if shorter)
+	// Truncate: -1 = keep the whole stream; 0..999 = keep that many permille of it;
+	// 1000+k = keep the first k bytes; -2-k = drop the last k+1 bytes.
+	Truncate int `json:"truncate"`
 	Chunks      []int      `json:"chunks"`
 }
 
@@ -89,15 +93,42 @@ func c02Data(n int, seed uint32, rnd bool) []byte {
 	return out
 }
 
+// c02ZlibWriters caches one compressor per level (creating one costs ~1 MiB of
+// cleared memory; the harness is single-threaded per process).
+var (
+	c02ZlibMu      sync.Mutex
+	c02ZlibWriters = map[int]*zlib.Writer{}
+)
+
 func c02Zlib(data []byte, level int) []byte {
+	c02ZlibMu.Lock()
+	defer c02ZlibMu.Unlock()
 	var zb bytes.Buffer
-	zw, err := zlib.NewWriterLevel(&zb, level)
-	if err != nil {
-		zw, _ = zlib.NewWriterLevel(&zb, -1)
+	zw := c02ZlibWriters[level]
+	if zw == nil {
+		var err error
+		zw, err = zlib.NewWriterLevel(&zb, level)
+		if err != nil {
+			panic(err)
+		}
+		c02ZlibWriters[level] = zw
+	} else {
+		zw.Reset(&zb)
 	}
 	zw.Write(data)
 	zw.Close()
 	return zb.Bytes()
+}
+
+// c02ValidFrame is verifkit.RefFrame with the cached compressors.
+func c02ValidFrame(payload []byte, threshold, level int) []byte {
+	if threshold < 0 {
+		return c02WithLen(payload)
+	}
+	if len(payload) < threshold {
+		return c02WithLen(append(verifkit.RefVarInt(0), payload...))
+	}
+	return c02WithLen(append(verifkit.RefVarInt(int32(len(payload))), c02Zlib(payload, level)...))
 }
 
 func c02WithLen(body []byte) []byte {
@@ -110,9 +141,9 @@ func c02Bytes(f c02Frame, threshold int) []byte {
 	case "raw":
 		return bytes.Clone(f.Raw)
 	case "valid":
-		return verifkit.RefFrame(c02Data(f.PLen, f.Seed, f.Rnd), threshold, c02Level(f.Level))
+		return c02ValidFrame(c02Data(f.PLen, f.Seed, f.Rnd), threshold, c02Level(f.Level))
 	case "empty":
-		return verifkit.RefFrame([]byte{}, threshold, -1)
+		return c02ValidFrame([]byte{}, threshold, -1)
 	case "zero":
 		return []byte{0}
 	case "rawlen":
@@ -261,11 +292,55 @@ func c02ReasonKey(reason string) string {
 	return "other"
 }
 
+// c02InflatesBeyondClaim: does the raw deflate data of the compressed frame at
+// offset start produce more bytes than the frame claims (checksum and trailer
+// ignored)?
+func c02InflatesBeyondClaim(stream []byte, start int) bool {
+	r := verifkit.NewRefReader(stream[start:])
+	l, err := r.VarInt()
+	if err != nil {
+		return false
+	}
+	body, err := r.Take(int(l))
+	if err != nil {
+		return false
+	}
+	br := verifkit.NewRefReader(body)
+	claimed, err := br.VarInt()
+	rest := br.Rest()
+	if err != nil || claimed <= 0 || len(rest) < 2 {
+		return false
+	}
+	fr := flate.NewReader(bytes.NewReader(rest[2:]))
+	n, _ := io.Copy(io.Discard, io.LimitReader(fr, int64(claimed)+1))
+	return n > int64(claimed)
+}
+
 func c02Short(b []byte) string {
 	if len(b) <= 20 {
 		return fmt.Sprintf("%x(len %d)", b, len(b))
 	}
 	return fmt.Sprintf("%x..%x(len %d)", b[:10], b[len(b)-4:], len(b))
+}
+
+func c02CutAt(tr, n int) int {
+	cut := n
+	switch {
+	case tr == -1:
+	case tr <= -2:
+		cut = n - (-tr - 1)
+	case tr < 1000:
+		cut = n * tr / 1000
+	default:
+		cut = tr - 1000
+	}
+	if cut < 0 {
+		cut = 0
+	}
+	if cut > n {
+		cut = n
+	}
+	return cut
 }
 
 type c02Outcome struct {
@@ -279,9 +354,7 @@ func c02Run(c c02Case) verifkit.Result {
 	for _, f := range c.Frames {
 		stream = append(stream, c02Bytes(f, c.Threshold)...)
 	}
-	if c.Truncate >= 0 && c.Truncate < len(stream) {
-		stream = stream[:c.Truncate]
-	}
+	stream = stream[:c02CutAt(c.Truncate, len(stream))]
 	var out c02Outcome
 	w := verifkit.Watch(15*time.Second, "codec.(*Decoder)", func() { out = c02Judge(c, stream) })
 	switch w.Outcome {
@@ -375,6 +448,7 @@ func c02Judge(c c02Case, stream []byte) (out c02Outcome) {
 				label("non-minimal-prefix(differential stops)")
 				break
 			}
+			start = ref.Pos
 			want, werr = verifkit.RefReadFrame(ref, threshold, capBytes)
 			if werr == nil && len(want) == 0 {
 				empties++
@@ -457,6 +531,11 @@ func c02Judge(c c02Case, stream []byte) (out c02Outcome) {
 				return
 			}
 			rk := c02ReasonKey(fe.Reason)
+			if (rk == "bad-adler32" || rk == "corrupt-or-truncated-deflate") && c02InflatesBeyondClaim(stream, start) {
+				// the deflate data alone already exceeds the claim: same root cause as a
+				// well-formed over-long stream (the inflater is never driven to the end)
+				rk = "inflates-beyond-claimed-size"
+			}
 			label("ref-rejects:" + rk)
 			out.nt = true
 			if gateAccepted {
@@ -487,6 +566,18 @@ func c02GenPLen(t *rapid.T, threshold int) int {
 	return rapid.OneOf(rapid.SampledFrom(ok), rapid.IntRange(1, 400)).Draw(t, "plen")
 }
 
+// c02Afford limits every case to one frame whose data exceeds 64 KiB (cost).
+func c02Afford(n int, big *bool) bool {
+	if n <= 1<<16 {
+		return true
+	}
+	if *big {
+		return false
+	}
+	*big = true
+	return true
+}
+
 func c02GenFrame(t *rapid.T, c *c02Case, big *bool) c02Frame {
 	th := c.Threshold
 	capBytes := c02CapCB
@@ -501,6 +592,9 @@ func c02GenFrame(t *rapid.T, c *c02Case, big *bool) c02Frame {
 	switch f.Kind {
 	case "valid":
 		f.PLen = c02GenPLen(t, th)
+		if !c02Afford(f.PLen, big) {
+			f.PLen = rapid.IntRange(1, 400).Draw(t, "plenSmall")
+		}
 		f.Rnd = rapid.Bool().Draw(t, "rnd")
 		f.Level = rapid.IntRange(-1, 9).Draw(t, "level")
 	case "rawlen":
@@ -530,10 +624,16 @@ func c02GenFrame(t *rapid.T, c *c02Case, big *bool) c02Frame {
 	case "plain":
 		// claimed 0 with an uncompressed body around the threshold
 		f.PLen = rapid.SampledFrom([]int{max(th-1, 1), max(th, 1), th + 1, th + 2, 1, max(th/2, 1)}).Draw(t, "plen")
+		if !c02Afford(f.PLen, big) {
+			f.PLen = rapid.IntRange(1, 400).Draw(t, "plenSmall")
+		}
 		f.Rnd = rapid.Bool().Draw(t, "rnd")
 	case "negclaimed":
 		f.Claimed = rapid.OneOf(rapid.SampledFrom([]int32{-1, -2147483648, -2}), rapid.Int32Range(-2147483648, -1)).Draw(t, "claimed")
 		f.PLen = rapid.SampledFrom([]int{1, max(th-1, 1), max(th, 1), th + 1, 20}).Draw(t, "plen")
+		if !c02Afford(f.PLen, big) {
+			f.PLen = rapid.IntRange(1, 400).Draw(t, "plenSmall")
+		}
 	case "claimed":
 		f.Level = rapid.IntRange(-1, 9).Draw(t, "level")
 		f.Mut = rapid.SampledFrom([]string{"", "", "", "adler", "cut1", "cut5", "cuthalf", "trailing", "header", "garbage"}).Draw(t, "mut")
@@ -541,7 +641,8 @@ func c02GenFrame(t *rapid.T, c *c02Case, big *bool) c02Frame {
 		small := []int32{int32(max(th-1, 1)), int32(max(th, 1)), int32(th + 1), int32(th + 100), 1, 300, 40000}
 		large := []int32{int32(capBytes - 1), int32(capBytes), int32(capBytes + 1), c02CapSB + 1, c02CapSB, c02CapCB, c02CapCB + 1, 1 << 20}
 		absurd := []int32{2147483647, 1 << 30, c02CapCB * 2, -5}
-		switch cls := rapid.IntRange(0, 19).Draw(t, "cls"); {
+		cls := rapid.IntRange(0, 19).Draw(t, "cls")
+		switch {
 		case cls == 7 && !*big:
 			f.Claimed = rapid.SampledFrom(large).Draw(t, "claimed")
 			*big = true
@@ -571,6 +672,14 @@ func c02GenFrame(t *rapid.T, c *c02Case, big *bool) c02Frame {
 		if f.PLen < 1 {
 			f.PLen = 1
 		}
+		if f.PLen > 1<<16 && cls != 7 && !c02Afford(f.PLen, big) {
+			// keep the relation to the claim but at an affordable size
+			f.Claimed = rapid.Int32Range(1, 2000).Draw(t, "claimedSmall")
+			f.PLen = int(f.Claimed) + rapid.SampledFrom([]int{0, 0, -1, 1, 500}).Draw(t, "deltaSmall")
+			if f.PLen < 1 {
+				f.PLen = 1
+			}
+		}
 		f.Rnd = f.PLen <= 1<<16 && rapid.Bool().Draw(t, "rnd")
 	}
 	return f
@@ -578,10 +687,13 @@ func c02GenFrame(t *rapid.T, c *c02Case, big *bool) c02Frame {
 
 var c02Thresholds = []int{-1, 0, 1, 256, 1 << 20, 64, 2, 16384}
 
+// generator weights (2^20 is costly: payloads around it are a megabyte)
+var c02ThresholdsWeighted = []int{-1, -1, 0, 0, 1, 1, 256, 256, 64, 2, 16384, 1 << 20}
+
 func c02GenCase(t *rapid.T) c02Case {
 	c := c02Case{
 		ServerBound: rapid.Bool().Draw(t, "serverbound"),
-		Threshold:   rapid.SampledFrom(c02Thresholds).Draw(t, "threshold"),
+		Threshold:   rapid.SampledFrom(c02ThresholdsWeighted).Draw(t, "threshold"),
 		Truncate:    -1,
 	}
 	n := rapid.IntRange(1, 6).Draw(t, "frames")
@@ -590,13 +702,11 @@ func c02GenCase(t *rapid.T) c02Case {
 		c.Frames = append(c.Frames, c02GenFrame(t, &c, &big))
 	}
 	if rapid.IntRange(0, 4).Draw(t, "cut") == 0 {
-		total := 0
-		for _, f := range c.Frames {
-			total += len(c02Bytes(f, c.Threshold))
-		}
-		if total > 0 {
-			c.Truncate = rapid.OneOf(rapid.IntRange(0, total-1), rapid.IntRange(max(total-12, 0), total-1), rapid.IntRange(0, min(total-1, 8))).Draw(t, "truncate")
-		}
+		c.Truncate = rapid.OneOf(
+			rapid.IntRange(0, 999),     // anywhere (permille)
+			rapid.IntRange(1000, 1012), // inside the first length prefix / claimed size
+			rapid.IntRange(-14, -2),    // just before the end (zlib trailer, last bytes)
+		).Draw(t, "truncate")
 	}
 	c.Chunks = rapid.OneOf(
 		rapid.Just([]int{0}),
